@@ -343,13 +343,16 @@ static void c11_run(int tier, long cfg)
 static void c11_two_starts(long k)
 {
   static const int l1s[3] = { 32, 64, 256 }, l2s[3] = { 64, 300, 1024 };
+  /* k >= 9: the second child is started in fork mode (no exec follows: close-on-exec protects nothing there) */
+  int fork2 = k >= 9;
+  if (fork2) k -= 9;
   int L1 = l1s[k % 3], L2 = l2s[k % 3], rc = (int) (k / 3) % 3;
   memset(&vk_cfg, 0, sizeof vk_cfg);
   vk_cfg.real_exec = 1;
   vk_cfg.vlimit = L1;
-  snprintf(key, sizeof key, "h_c11|two-starts|limit=%d->%d|redirect=%d", L1, L2, rc);
+  snprintf(key, sizeof key, "h_c11|two-starts%s|limit=%d->%d|redirect=%d", fork2 ? ",second-forked" : "", L1, L2, rc);
   hx_desc("%s", key);
-  snprintf(key, sizeof key, "h_c11|two-starts");
+  snprintf(key, sizeof key, "h_c11|two-starts%s", fork2 ? ",second-forked" : "");
   hx_begin();
   reproc_stop_actions kk = { { REPROC_STOP_KILL, REPROC_INFINITE }, { REPROC_STOP_NOOP, 0 }, { REPROC_STOP_NOOP, 0 } };
   reproc_options o;
@@ -369,7 +372,14 @@ static void c11_two_starts(long k)
   for (int i = 0; i < 3; i++) { dup2(src, fds[i]); fcntl(fds[i], F_SETFD, 0); }
   close(src);
   reproc_t *p2 = hx_new();
-  r = hx_start(p2, hx_helper_argv(), o);
+  if (fork2) {
+    vk_cfg.fork_mode = 1;
+    vk_cfg.fork_child_first = 1;
+    o.fork = true;
+    r = hx_start(p2, NULL, o);
+    if (vk_side != 0) hx_forked_side(p2, r);
+    if (r <= 0) vk_finish(OUT_INFRA, "second (fork-mode) start failed: %d", r);
+  } else r = hx_start(p2, hx_helper_argv(), o);
   if (r < 0) vk_finish(OUT_INFRA, "second start failed: %d", r);
   struct vk_child *c2 = &vk_children[1];
   if (!c2->have_hello) vk_violation("C04", "success-without-program", key, "no hello");
@@ -381,7 +391,7 @@ static void c11_two_starts(long k)
   for (int i = 0; i < 3; i++) close(fds[i]);
 }
 
-#define NTWO 9
+#define NTWO 18
 static long c11_n(int tier) { return (long) (tier ? 5 : 3) * NRC * 243 + NTWO; }
 
 const struct hx_harness h_c10 = { "C10", "h_c10", c10_n, c10_run, redir_clauses, NULL };
